@@ -158,7 +158,7 @@ Section Ids.
      have pairwise distinct ids - under the legacy order always, otherwise when no plain resource already carries a
      hashed name (the C07 finding: the HashTransformer does not re-check, and without the re-Append of the legacy sort
      nothing does) *)
-  Theorem build_ids_unique_wf o t outs :
+  Theorem build_ids_unique_guarded o t outs :
     tree_wf t -> build nonstr o t = Ok outs ->
     (match o with
      | PSortLegacy _ _ => True
@@ -791,6 +791,28 @@ Section Fix.
     rewrite Hsort. cbn [bind]. f_equal.
     rewrite map_map. cbn [r_node load]. unfold outs. rewrite map_map.
     apply map_ext_in. intros n Hn. apply strip_node_idem. apply Hclean. exact Hn.
+  Qed.
+
+  (* for trees of well-formed documents the guard on the output ids is discharged: since the HashTransformer
+     re-checks (hash_check), every successful build has distinct output ids (PipelineWfProofs.build_ids_unique_wf) *)
+  Theorem build_fixpoint_wf o t pre rules name :
+    tree_wf t ->
+    build_pre o t = Ok pre ->
+    Forall meta_clean pre ->
+    let outs := map strip_node pre in
+    (match o with
+     | PSortLegacy first last => node_order_total first last outs
+     | _ => True
+     end) ->
+    pipe_rules = Ok rules ->
+    nameref_transform pipe_cs nonstr rules (map load outs) = Ok (map load outs) ->
+    build nonstr o (leaf name outs) = Ok outs.
+  Proof.
+    intros Hwf Hpre Hclean outs G ER Hnr.
+    assert (Hb : build nonstr o t = Ok outs) by (rewrite build_pre_spec, Hpre; reflexivity).
+    pose proof (PipelineWfProofs.build_ids_unique_wf nonstr o t outs Hwf Hb) as D.
+    apply (build_fixpoint o t pre rules name Hpre Hclean); [|exact ER|exact Hnr].
+    destruct o; [exact D|exact D|exact G].
   Qed.
 End Fix.
 
